@@ -21,9 +21,18 @@ func VerifC17Step() {
 	mine := vGenNick("mine", L)
 	cfg := NewConfig(mine)
 	genOut := ""
+	genCalls := 0
 	if custom {
+		// a generator that is not a pure function: it hands out genOut first and something else on
+		// every later call (a list of alternates, a counter, random digits ...)
 		genOut = vGenNick("gen", L)
-		cfg.NewNick = func(string) string { return genOut }
+		cfg.NewNick = func(string) string {
+			genCalls++
+			if genCalls == 1 {
+				return genOut
+			}
+			return genOut + "_"
+		}
 	}
 	conn := Client(cfg)
 	conn.initialise()
@@ -101,6 +110,9 @@ func VerifC17Step() {
 	lines := vDrain(conn)
 	if wantWire != "" {
 		vAssert(len(lines) == 1 && lines[0] == wantWire, "asks-for-generated-nick")
+		if custom {
+			vAssert(genCalls == 1, "generator-consulted-once-per-collision")
+		}
 	} else {
 		vAssert(len(lines) == 0, "no-unprompted-nick-change")
 	}
